@@ -20,7 +20,7 @@ structure Member where
   ped : Nat          -- identity of the Pedersen generator set (equal ids ⇔ equal `h_base`, `g_base_vec`)
   d1 : Nat           -- length of the proof's `d1`
   rounds : Nat       -- number of L/R pairs (|L| = |R| is guaranteed by the decoder)
-  promisesFit : Bool -- every promise < 2^n (or n = 64)
+  promisesFit : Bool -- one promise per commitment (since fix: 81701bf) and every promise < 2^n (or n = 64)
   pointsOk : Bool    -- transcript validation and decompression succeed (no identity / undecodable point)
   valid : Bool       -- reference residual is zero
   seeded : Bool      -- statement carries a recovery seed
